@@ -20,7 +20,7 @@
 EXTENDS PathOps
 
 CONSTANTS
-    Mode,        \* "scp" | "get"
+    Mode,        \* "scp" | "get" | "mget"
     SNames,      \* scp: names used in C and D records (path strings)
     Backslash,   \* scp: the members of SNames that contain a backslash
     CheckNames,  \* scp: TRUE = _parse_cd_args as written; FALSE = sensitivity
@@ -29,13 +29,19 @@ CONSTANTS
     DestKinds,   \* subset of {"dir", "none", "file"}: what dest is beforehand
     Conts,       \* subset of BOOLEAN: caller passed an error_handler
     MaxRec,      \* records / top-level entries
-    Fuel
+    Fuel,
+    Patterns,    \* mget: glob patterns below the searched directory "s", each a
+                 \* sequence of segments [k |-> "w", v |-> <<"*">>] (wildcard) or
+                 \* [k |-> "lit", v |-> <<"a">>] (run of literal components)
+    Matches,     \* mget: {<<wildcard, name>>}: fnmatch(name, wildcard) holds
+    GlobFilter   \* mget: FALSE = SFTPGlob as written; TRUE = proposed repair
 
 VARIABLES
     lfs,      \* local file system
     cfg,      \* [dest, cont]
     stack,    \* scp: destination strings of the nested _recv_files calls
               \* get: <<destination string of the top-level directory copy>>
+              \* mget: the names SFTPGlob reported
     created,  \* locations created / modified by the download
     state,    \* "run" | "done" | "aborted"
     nrec,
@@ -121,12 +127,16 @@ Filtered(nm) == FilterNames /\ Len(nm) > 1          \* the name contains a "/"
 (* raised inside the listing loop of the directory being copied: that loop *)
 (* ends; the directory's own handler reports it (error_handler) and the    *)
 (* parent's loop goes on, or the exception unwinds everything.             *)
-RECURSIVE CopyEntry(_, _, _, _)
+RECURSIVE CopyAt(_, _, _, _)
 RECURSIVE CopyList(_, _, _, _)
 CopyEntry(acc, dst, e, cont) ==
     IF ~acc.ok \/ acc.halt \/ Skipped(e.name) THEN acc
     ELSE IF Filtered(e.name) THEN [acc EXCEPT !.halt = TRUE]
-    ELSE LET d == Join(dst, e.name) IN
+    ELSE CopyAt(acc, Join(dst, e.name), e, cont)
+(* _copy(srcpath, dstpath = d) *)
+CopyAt(acc, d, e, cont) ==
+    IF ~acc.ok \/ acc.halt THEN acc
+    ELSE
       CASE e.type = "file" ->
              LET o == SysOpenW(acc.fs, d) IN
              IF o.st = "err" THEN [acc EXCEPT !.ok = cont]
@@ -159,10 +169,97 @@ GetStep(e) ==
                    ELSE IF r.ok THEN "run" ELSE "aborted"
 
 -----------------------------------------------------------------------------
+(* Client-side glob expansion: SFTPClient.mget(b's/<pattern>', dest,       *)
+(* recurse=True) and SFTPClient.glob().  SFTPGlob (sftp.py, _match,        *)
+(* _match_exact, _match_pattern) walks the server's listings, joins the    *)
+(* listed names onto the path being searched and reports the matches;      *)
+(* _begin_copy copies every reported name to dest/basename(name).  The     *)
+(* server is hostile: stat() says "directory" for every path, a listing    *)
+(* holds arbitrary names.                                                  *)
+SrcDir == <<"s">>
+RECURSIVE JoinAll(_, _)
+JoinAll(path, comps) == IF comps = <<>> THEN path
+                        ELSE JoinAll(Join(path, <<Head(comps)>>), Tail(comps))
+ListingOf(top, path) ==
+    IF path = SrcDir THEN top
+    ELSE LET c == {i \in 1..Len(top) : top[i].type = "dir" /\
+                                       Join(SrcDir, top[i].name) = path} IN
+         IF c = {} THEN <<>> ELSE top[CHOOSE i \in c : \A j \in c : i <= j].sub
+DirEnt(top, path) == [name |-> path, type |-> "dir", t |-> <<>>,
+                      sub |-> ListingOf(top, path)]
+Report(acc, np, e) == [acc EXCEPT !.names = Append(acc.names, [name |-> np, ent |-> e])]
+
+RECURSIVE GMatch(_, _, _, _)
+RECURSIVE GEntries(_, _, _, _, _, _)
+GMatch(top, acc, path, pl) ==
+    IF acc.halt THEN acc
+    ELSE LET seg == Head(pl)
+             rest == Tail(pl) IN
+      IF seg.k = "lit" THEN              \* _match_exact
+          LET np == JoinAll(path, seg.v) IN
+          IF rest # <<>> THEN GMatch(top, acc, np, rest)
+          ELSE Report(acc, np, DirEnt(top, np))
+      ELSE                               \* _match_pattern
+          LET a0 == IF seg.v # <<"**">> THEN acc
+                    ELSE IF rest # <<>> THEN GMatch(top, acc, path, rest)
+                    ELSE Report(acc, path, DirEnt(top, path))
+          IN GEntries(top, a0, path, pl, ListingOf(top, path), 1)
+GEntries(top, acc, path, pl, list, i) ==
+    IF acc.halt \/ i > Len(list) THEN acc
+    ELSE LET e == list[i]
+             seg == Head(pl)
+             rest == Tail(pl)
+             np == Join(path, e.name) IN
+      IF e.name \in {<<".">>, <<"..">>} THEN GEntries(top, acc, path, pl, list, i + 1)
+      ELSE IF GlobFilter /\ Len(e.name) > 1 THEN [acc EXCEPT !.halt = TRUE]
+      ELSE IF <<seg.v, e.name>> \notin Matches
+           THEN GEntries(top, acc, path, pl, list, i + 1)
+      ELSE IF seg.v = <<"**">> /\ e.type = "dir"
+           THEN GEntries(top, GMatch(top, acc, np, pl), path, pl, list, i + 1)
+      ELSE IF rest # <<>>
+           THEN GEntries(top, IF e.type = "dir" THEN GMatch(top, acc, np, rest) ELSE acc,
+                         path, pl, list, i + 1)
+      ELSE GEntries(top, Report(acc, np, e), path, pl, list, i + 1)
+
+Glob(top, pat) == GMatch(top, [names |-> <<>>, halt |-> FALSE], SrcDir, pat)
+
+RECURSIVE CopyNames(_, _, _, _, _)
+CopyNames(acc, names, i, isdir, cont) ==
+    IF i > Len(names) \/ ~acc.ok THEN acc
+    ELSE LET nm == names[i].name
+             d == IF isdir THEN Join(DestStr, <<Last(nm)>>) ELSE DestStr   \* basename
+         IN CopyNames(CopyAt(acc, d, names[i].ent, cont), names, i + 1, isdir, cont)
+
+(* the whole mget for a listing: [fs, created, names, state] *)
+RunMget(c, top) ==
+    LET g == Glob(top, c.pat)
+        f0 == InitFs(c.dest)
+        isdir == c.dest = "dir"
+        none == [fs |-> f0, created |-> {}, names |-> g.names, state |-> "aborted"]
+    IN IF (g.halt /\ ~c.cont) \/ g.names = <<>> \/ (Len(g.names) > 1 /\ ~isdir)
+       THEN none
+       ELSE LET r == CopyNames([fs |-> f0, created |-> {}, ok |-> TRUE, halt |-> FALSE],
+                               g.names, 1, isdir, c.cont)
+            IN [fs |-> r.fs, created |-> r.created, names |-> g.names,
+                state |-> IF r.ok THEN "run" ELSE "aborted"]
+
+MgetStep(e) ==
+    /\ Mode = "mget" /\ nrec < MaxRec
+    /\ nrec' = nrec + 1 /\ hist' = Append(hist, e) /\ UNCHANGED cfg
+    /\ LET r == RunMget(cfg, hist') IN
+       /\ lfs' = r.fs /\ created' = r.created /\ state' = r.state
+       /\ stack' = [i \in 1..Len(r.names) |-> r.names[i].name]
+
+-----------------------------------------------------------------------------
 Init ==
-    /\ cfg \in [dest : DestKinds, cont : Conts]
+    /\ cfg \in [dest : DestKinds, cont : Conts,
+                 pat : IF Mode = "mget" THEN Patterns ELSE {<<>>}]
     /\ nrec = 0 /\ hist = <<>>
-    /\ IF Mode = "scp" THEN
+    /\ IF Mode = "mget" THEN
+          LET r == RunMget(cfg, <<>>) IN      \* the empty listing
+          /\ lfs = r.fs /\ created = r.created /\ state = r.state
+          /\ stack = [i \in 1..Len(r.names) |-> r.names[i].name]
+       ELSE IF Mode = "scp" THEN
           \* run(): recv_files(b'', dstpath)
           /\ lfs = InitFs(cfg.dest) /\ stack = <<DestStr>> /\ created = {}
           /\ state = "run"
@@ -179,12 +276,22 @@ Init ==
 
 Next == \/ \E r \in Records : ScpStep(r)
         \/ \E e \in Entries : GetStep(e)
+        \/ \E e \in Entries : MgetStep(e)
 
 Spec == Init /\ [][Next]_vars
 
 -----------------------------------------------------------------------------
 (* C13, second sentence *)
 AllCreatedUnderDest == \A l \in created : Under(DestLoc, l)
+
+(* names reported by glob() stay under the directory that was searched *)
+NameUnder(nm) == ~IsAbs(nm) /\ Under(SrcDir, NormFold(nm, <<>>, FALSE))
+GlobNamesUnderSearched ==
+    Mode = "mget" => \A i \in 1..Len(stack) : NameUnder(stack[i])
+
+EmitM == PrintT(<<"MCASE", cfg, hist, state, created,
+                 {<<l, lfs[l].k, lfs[l].t>> : l \in DOMAIN lfs \ {<<>>, Top}},
+                 stack>>)
 
 Outcome == <<Mode, cfg, hist, state, created,
              {<<l, lfs[l].k, lfs[l].t>> : l \in DOMAIN lfs \ {<<>>, Top}}>>
